@@ -24,11 +24,13 @@ STRING_BOUND_CHECKED = False   # F15: the lexer refuses a string literal that do
 
 
 def configure(repo):
-    global LOGIN_REQUIRED, STRING_BOUND_CHECKED
+    global LOGIN_REQUIRED, STRING_BOUND_CHECKED, DUP_PLUG_REFUSED
     y = open(os.path.join(repo, "src/powerman/parse_tab.y")).read()
     l = open(os.path.join(repo, "src/powerman/parse_lex.l")).read()
     LOGIN_REQUIRED = re.search(r"prescripts\[PM_LOG_IN\]\s*==\s*NULL\s*\)\s*_errormsg", y) is not None
     STRING_BOUND_CHECKED = re.search(r"string_buf_ptr\s*>=\s*string_buf\s*\+\s*sizeof\s*\(\s*string_buf\s*\)\s*-\s*1", l) is not None
+    # F34: string_list refuses a repeated plug name as soon as the second occurrence is reduced
+    DUP_PLUG_REFUSED = re.search(r'_errormsg\(\s*"duplicate plug name"\s*\)', y) is not None
 
 
 class Refuse(Exception):
@@ -324,7 +326,10 @@ class _Parser:
                 self.expect("BEGIN")
                 names = [self.expect("STRING").val]
                 while self.peek() == "STRING":
-                    names.append(self.next().val)
+                    t = self.next()
+                    if DUP_PLUG_REFUSED and t.val in names:
+                        raise Refuse(t.line, "duplicate plug name")
+                    names.append(t.val)
                 end = self.expect("END")
                 if s.plugs is not None:
                     raise Refuse(end.line, "duplicate plug list")
